@@ -66,7 +66,8 @@ def check_doc_perm(doc, perm, cfg, ref_obs=None):
         g0 = build(range(len(lines)), "generation")
         ref_obs = O.observe(g0)
     g = build(perm, "permuted")
-    if g.version != version:
+    if g.version != version and any(x[:1] in "SLCPEFGOU" for x in lines):
+        # (a document without any line of a record type that belongs to a version has no version of its own)
         raise Violation("version", "version %r for order\n%s" % (g.version, "\n".join(lines[i] for i in perm)))
     if O.placeholders(g) or any(l.virtual for l in g.lines):
         raise Violation("placeholder-left", "placeholder remains after reading the whole document:\n%s\n-- order --\n%s" % (
